@@ -148,7 +148,7 @@ theorem case_spec_partial (c : Case) (h : WfCase c) (hn : noNesting c.ops = true
   unfold Spec.C08 Chan.run
   simp only
   exact fold_inv c.ops (initSt c) {} (good_init c h) h.ops
-    (Inv.closed _ rfl rfl rfl ⟨fun r h => by simp [initSt] at h, fun p hp => by simp [initSt] at hp⟩) hn hq
+    (Inv.closed true _ rfl rfl rfl ⟨fun r h => by simp [initSt] at h, fun p hp => by simp [initSt] at hp⟩) hn hq
 
 /-- the hypotheses are satisfiable by a non-trivial case: literal prompt `PQ`, suppressing
     attachment, a read that ends inside the prompt (`P` held back), a read that completes it,
